@@ -75,7 +75,7 @@ func c01ForwardLabel(w *World, r *Report) {
 }
 
 func runC01(w *World, r *Report) {
-	r.Rule("C01-R1", "synchronous single-consumer path", "stream receive -> innerHandleReplicateMsg -> handlePack -> SendTargetMsg are plain calls (no go / pool submit inside them); forwardPackChan and generatePackChan are received only inside startReadChannel's goroutine (and GreedyConsumeChan called from it); each GetStreamChan result has one receive site", 6)
+	r.Rule("C01-R1", "synchronous single-consumer path", "stream receive -> innerHandleReplicateMsg -> handlePack -> SendTargetMsg are plain calls (no go / pool submit inside them, nor in forwardMsg, which hands a forwarded pack to the receiving handler); forwardPackChan and generatePackChan are received only inside startReadChannel's goroutine (and GreedyConsumeChan called from it); each GetStreamChan result has one receive site", 6)
 	defer c01ForwardLabel(w, r)
 	// the -1 "partition dropped" sentinel that lets handlePack skip a message never comes with an error; a collection is
 	// registered for replication atomically, so a second announcement cannot start a second stream (shared with C06/C13)
@@ -118,7 +118,7 @@ func runC01(w *World, r *Report) {
 		})
 		return ok, pos
 	}
-	for _, spec := range []struct{ recv, name string }{{"replicateChannelHandler", "innerHandleReplicateMsg"}, {"replicateChannelHandler", "handlePack"}, {"tsManager", "SendTargetMsg"}} {
+	for _, spec := range []struct{ recv, name string }{{"replicateChannelHandler", "innerHandleReplicateMsg"}, {"replicateChannelHandler", "handlePack"}, {"tsManager", "SendTargetMsg"}, {"replicateChannelManager", "forwardMsg"}} {
 		f := w.Func(pkgReader, spec.recv, spec.name)
 		cons := fmt.Sprintf("(*%s).%s | no asynchronous hop", spec.recv, spec.name)
 		if f == nil {
